@@ -103,6 +103,10 @@ def _run_variant(ctx, model, d, tag, check_nodes=True):
         except (ZeroDivisionError, OverflowError, ValueError) as e:
             ctx.dontcare("%s reference arithmetic %s" % (name, type(e).__name__))
             return
+        int_inputs = [cmd.program.commands[dn]._result.dtype.kind in "iu" for dn in deps]
+        if any(int_inputs) and ref.partial_overflow(name, ins, params, 2 ** 62):
+            ctx.dontcare("%s: an integer (partial) result beyond the int64 range (overflow is out of scope)" % name)
+            return
         if isinstance(value, numpy.ndarray) and value.dtype.kind in "iu" and any(w is not None and abs(w) >= 2 ** 62 for w in want):
             ctx.dontcare("%s: integer result beyond the int64 range (overflow is out of scope)" % name)
             return
